@@ -23,6 +23,30 @@ def units():
                   "kind": "enumerated(channels=%d)" % ch, "tier": "thorough" if withmax else "quick",
                   "trusted": ["sf_command / sf_seek / sf_read_double: clauses proved in the sndfile.c units, restated as replacement contracts",
                               "environment: input is finite, every non-empty read consumes some of it (termination measure)"]})
+    for ch, withmax in ((2, 0), (3, 0), (2, 1), (3, 1)):
+        inner = {"loop_id": 0, "assigns_locals": True, "assigns": "__CPROVER_object_whole (peaks)",
+                 "invariants": "0 <= k && k <= readcount && readcount <= 1024 && readcount %% CH == 0 && 0 <= chan && chan < CH && 0 <= gc.delivered && gc.delivered <= (1LL << 42) && gc.delivered %% CH == 0 && chan == k %% CH" +
+                               (" && ((0 <= g_n && g_n < gc.delivered - readcount + k) ==> peaks [g_n %% CH] >= __CPROVER_fabs (g_val))" if withmax else ""),
+                 "decreases": "readcount - k"}
+        outer = {"loop_id": 1, "assigns_locals": True,
+                 "assigns": "psf->error, psf->read_current, psf->last_op, __CPROVER_object_whole (&gc), __CPROVER_object_whole (data), __CPROVER_object_whole (peaks)",
+                 "invariants": "0 <= readcount && readcount <= 1024 && readcount %% CH == 0 && chan == 0 && len > 0 && len <= 1024 && len %% CH == 0 && gc.remaining >= 0 && gc.remaining <= (1LL << 42) && 0 <= gc.delivered && gc.delivered <= (1LL << 42) "
+                               "&& gc.delivered %% CH == 0 && gc.delivered + gc.remaining <= (1LL << 41) && 0 <= psf->read_current && psf->read_current <= (1LL << 40)"
+                               "&& gc.seek_failed == __CPROVER_loop_entry (gc.seek_failed) "
+                               "&& psf->write_current == __CPROVER_loop_entry (psf->write_current) && psf->norm_double == __CPROVER_loop_entry (psf->norm_double) "
+                               + (" && ((0 <= g_n && g_n < gc.delivered) ==> peaks [g_n %% CH] >= __CPROVER_fabs (g_val))" if withmax else ""),
+                 "decreases": "gc.remaining + (readcount > 0 ? 1 : 0)"}
+        for lp in (inner, outer):
+            if withmax:     # every channel's running maximum is a number >= 0 (never NaN: the comparison would stop updating it)
+                lp["invariants"] += "".join(" && peaks [%d] >= 0.0" % c for c in range(ch))
+            lp["invariants"] = lp["invariants"].replace("%%", "%").replace("CH", str(ch))
+        U.append({"name": "command.psf_calc_max_all_channels.ch%d%s" % (ch, "" if withmax else ".state"), "props": ["C18", "C17", "C09"], "harness": "command_calc.harness.c",
+                  "entry": "h_calc_max_all", "enforce": "psf_calc_max_all_channels", "function": "command.c:psf_calc_max_all_channels",
+                  "replace": ["sf_command", "sf_seek", "sf_read_double"], "defines": ["-DCH=%d" % ch] + ([] if withmax else ["-DNO_MAX_CLAUSE"]),
+                  "loops": {"psf_calc_max_all_channels": [inner, outer]}, "timeout": 900,
+                  "kind": "enumerated(channels=%d)" % ch, "tier": "thorough" if withmax else "quick",
+                  "trusted": ["sf_command / sf_seek / sf_read_double: clauses proved in the sndfile.c units, restated as replacement contracts",
+                              "environment: input is finite, every non-empty read consumes some of it (termination measure)"]})
     U.append({"name": "command.format_lists", "props": ["C10", "C09"], "harness": "format_lists.harness.c", "entry": "h_format_lists", "dfcc": False,
               "function": "command.c:psf_get_format_simple/_major/_subtype/_info + counts; sndfile.c:sf_format_check", "link_sources": ["sndfile.c"],
               "cbmc_flags": ["--object-bits", "9", "--unwind", "80"], "timeout": 900,
